@@ -81,7 +81,10 @@ def gen_program(rng):
     elif c < 0.55:
         fail = rng.randint(6, len(forms)); kind = "syntax"
         forms.insert(fail, rng.choice(SYNTAX))
-    if fail is not None and rng.random() < 0.7:
+    if kind == "syntax" and forms[fail].count('"') % 2 == 1:
+        # an unterminated string literal runs to the next double quote, wherever that is: it stays a syntax error only as the last thing in the file
+        forms = forms[:fail + 1]
+    elif fail is not None and rng.random() < 0.7:
         forms.insert(fail + 1, "(display \"never printed\")")
     return forms, fail, kind, use_lib
 
